@@ -143,7 +143,9 @@ def mm_transactions_for(ctx: Ctx, pid: str):
     for ex, r in rets:
         v = r.value
         if v in (("list", elem), ("list", ("call", ("n", "TBody"), (elem,), ()))):
-            ok_t = is_method is not None and equivalent(py_guard(r), f_not(is_method)) is None
+            # the path condition (which sees an early `return` of the method arm: guard-clause spelling) or the enclosing tests
+            ok_t = is_method is not None and (equivalent(py_guard(r), f_not(is_method)) is None
+                                              or equivalent(fn.reach(Return, lambda x, r=r: x.value == r.value and x.frames == r.frames and x.callid is None), f_not(is_method)) is None)
     ctx.check(ok_m and ok_t, rule, fn.site, "MethodMap.transactions_for", found="; ".join(f"{tstr(r.value)} if {fstr(py_guard(r))}" for _, r in rets),
               required="transactions_by_method[body] if the body is a method (a key of that map), [body] otherwise")
 
